@@ -407,6 +407,11 @@ def mask_ok(v, n):
     return isinstance(v, np.ndarray) and v.dtype == np.bool_ and v.shape == tuple(int(i) for i in n)
 
 
+def describe_field(f):
+    return (f"field n={tuple(int(i) for i in f.mesh.n)} nvdim={f.nvdim} dtype={f.array.dtype} vdims={f.vdims} "
+            f"mapping={f.vdim_mapping}")
+
+
 def describe(v):
     if isinstance(v, np.ndarray):
         return f"ndarray dtype={v.dtype} shape={v.shape}"
@@ -504,10 +509,17 @@ class Search:
         with np.errstate(all="ignore"):
             raised, r = C.raises(ev.fn, f, o)
         if raised:
-            ctx.note(f"event-raised:{evname}:{type(r).__name__}")
+            if evname.startswith("rot90") and isinstance(r, RuntimeError) and "vector orientation" in str(r):
+                # the documented refusal for vector fields whose components are not mapped onto the two axes
+                ctx.note(f"event-refused:{evname}:unmapped-components")
+                return None
+            # every other event is an operation the statement lists, applied to an operand it is defined for (the
+            # `enabled` conditions of the event table): it has to RETURN a field with the validity the statement names
+            ctx.fail(f"{site_of(evname)}/raises-on-legal-operand/{engine._lib_site(r.__traceback__) or 'outside-library'}/"
+                     f"{type(r).__name__}", f"{evname} on {describe_field(f)}: {type(r).__name__}: {str(r)[:160]}")
             return None
         if not isinstance(r, df.Field):
-            ctx.note(f"event-returned-no-field:{evname}")
+            ctx.fail(f"{site_of(evname)}/returns-no-field", f"{evname} on {describe_field(f)} returned {type(r).__name__}")
             return None
         ctx.check()
         n = tuple(int(i) for i in r.mesh.n)
@@ -536,7 +548,9 @@ class Search:
                 fn_copy = ev.fn if ev.kind == "map" else EVBY[evname.replace("-inplace", "")].fn
                 craised, cr = C.raises(fn_copy, comp, None)
             if craised or not isinstance(cr, df.Field):
-                ctx.note(f"companion-raised:{evname}")
+                # the same event on a scalar field of the same mesh that carries the mask as data
+                ctx.fail(f"{site_of(evname)}/raises-on-legal-operand/mask-as-scalar-data/{type(cr).__name__}",
+                         f"{evname} on the scalar companion of {describe_field(f)}: {type(cr).__name__}: {str(cr)[:160]}")
                 exp = None
             else:
                 exp = cr.array[..., 0] != 0
